@@ -739,10 +739,10 @@ pub fn direct_parsers(inputs: &[String]) -> Vec<(String, String, String)> {
     crate::world::install_panic_hook();
     struct Null(u64);
     impl sim_io::Console for Null {
-        fn emit(&mut self, _: &'static str, _: u32, _: &str) {
+        fn emit(&mut self, _: &'static str, _: u32, text: &str) {
             // the print reader writes as it goes: endless output is a hang, not a result
-            self.0 += 1;
-            if self.0 > crate::world::MAX_RECORDS_PER_STATEMENT {
+            self.0 += text.len() as u64;
+            if self.0 > crate::world::MAX_BYTES_PER_STATEMENT {
                 std::panic::resume_unwind(Box::new(crate::world::SimSpin));
             }
         }
